@@ -114,7 +114,15 @@ impl ProcessState {
             let tx = if !must_create {
                 db = connect(&e, &dbfile)
                     .map_err(|e| RedoError::new(format!("could not connect: {}", e)))?;
-                let tx = db.transaction().map_err(RedoError::opaque_error)?;
+                // A run id is inserted below when we do not inherit one: take the write
+                // lock up front, because a transaction that reads first and writes later
+                // fails with SQLITE_BUSY as soon as another process commits in between.
+                let tx = if e.runid.is_none() {
+                    db.transaction_with_behavior(TransactionBehavior::Immediate)
+                } else {
+                    db.transaction()
+                }
+                .map_err(RedoError::opaque_error)?;
                 let ver: Option<i32> = tx
                     .query_row("select version from Schema", [], |row| row.get(0))
                     .optional()
@@ -132,7 +140,7 @@ impl ProcessState {
                 helpers::unlink(&dbfile).map_err(RedoError::opaque_error)?;
                 db = connect(&e, &dbfile)
                     .map_err(|e| RedoError::new(format!("could not connect: {}", e)))?;
-                let tx = db.transaction().map_err(RedoError::opaque_error)?;
+                let tx = db.transaction_with_behavior(TransactionBehavior::Immediate).map_err(RedoError::opaque_error)?;
                 tx.execute(
                     "create table Schema \
                         (version int)",
